@@ -1041,6 +1041,27 @@ func init() {
 					r.Ok("reject/unexported-foreign", rj.as.Pos(), "an identifier is rejected when it is unexported and belongs to another package — under exactly: %s", got)
 				case "!field.Exported() ∧ !keyed ∧ pkg.Path()!=wantPkg":
 					literal = true
+					// every field is looked at: the enclosing loop runs over all of the struct's fields
+					allFields := false
+					for l := af.enclosingLoop(rj.as); l != nil; l = af.enclosingLoop(l) {
+						switch x := l.(type) {
+						case *ast.ForStmt:
+							if li := af.loopShape(x); li != nil && li.ascending && !li.inclusive && li.from == "0" && af.isCall(af.deref(li.boundExpr), "go/types.Struct.NumFields") != nil {
+								allFields = true
+							}
+						case *ast.RangeStmt:
+							allFields = true
+						}
+					}
+					// (the test may sit in a helper analysed in place: its loop is among the conditions of the rejection)
+					for _, g := range rj.conds {
+						if fs, ok := g.At.(*ast.ForStmt); ok && g.Loop {
+							if li := af.loopShape(fs); li != nil && li.ascending && !li.inclusive && li.from == "0" && af.isCall(af.deref(li.boundExpr), "go/types.Struct.NumFields") != nil {
+								allFields = true
+							}
+						}
+					}
+					r.Check(allFields, "reject/unkeyed-literal/every-field", rj.as.Pos(), "the unexported-field test visits every field of the struct (from the first one)")
 					// the literal's recorded type may be *T (an element literal with elided type in []*T{{…}})
 					through := false
 					af.inspect(lit.Body, func(nd ast.Node) bool {
